@@ -111,10 +111,12 @@ def packRespTCP (body : Bytes) : Bytes := be16 body.length ++ body
 
 /-! ### observables, executable spec, line protocol (real listeners over loopback)
 
-  case : `proto=<tcp|tls|gnet> max=<n> hold=<0|1> fr=<len>[x],… segs=<n>,…`
+  case : `proto=<tcp|tls|gnet> max=<n> hold=<0|1|2> fr=<len>[x],… segs=<n>,…`
          the client writes the stream of frames in the given segments (TCP_NODELAY, paced);
          `hold=1`: the upstream answers nothing until the client has seen every REFUSED it is due
-         (so exactly the first `max` queries are in flight), `hold=0`: it answers at once, out of order.
+         (so exactly the first `max` queries are in flight), `hold=0`: it answers at once, out of order; `hold=3 wave=<k1>`: the first k1 queries in one burst, held, then all released and answered,
+         then the rest ping-pong; `hold=2`: ping-pong, the client sends the next
+         frame only after it has read the response to the previous one (segments do not span frames).
   out  : `w=<id><a|r|x>|bad,… (sorted) up=<ids> closed=<0|1>` re-framed from the octets read back. -/
 
 /-- what the client and the upstream see when the handlers complete only after the whole stream was read -/
@@ -131,35 +133,105 @@ def tcpObs (max : Nat) (chunks : Chunks) : Obs :=
 def spec (max : Nat) (stream : Bytes) (o : Obs) : Bool :=
   Gnet.spec ⟨max, false, [.seg stream]⟩ o
 
+/-- admission against the limit when `done i` handlers finish while message `i` is read and the limiter
+    rejects query `i` iff `lim i` (reference semantics, from the property text: a query is REFUSED iff
+    `max` handlers are running when it is decoded — or the limiter objects —, otherwise it is handled) -/
+def admissionS (max : Nat) (done : Nat → Nat) (lim : Nat → Bool) : Nat → Nat → List Bytes → List Event
+  | _, _, [] => []
+  | i, running, f :: fs =>
+    if running - done i + 1 > max || lim i then .refused f :: admissionS max done lim (i + 1) (running - done i) fs
+    else .query f :: admissionS max done lim (i + 1) (running - done i + 1) fs
+
+/-- what must be observed of the goroutine listener for the stream `sent` under the completion schedule `done` -/
+def expectedS (max : Nat) (done : Nat → Nat) (sent : Bytes) : Obs :=
+  let fs := (parse sent).1
+  obsOfEvents (admissionS max done (fun _ => false) 0 0 (fs.takeWhile decB)) (!fs.all decB)
+
+def specS (max : Nat) (done : Nat → Nat) (sent : Bytes) (o : Obs) : Bool :=
+  let e := expectedS max done sent
+  sortW o.w == sortW e.w && o.up == e.up && o.closed == e.closed
+
+def tcpObsS (max : Nat) (done : Nat → Nat) (chunks : Chunks) : Obs :=
+  let r := handleConn decB max done (fun _ => false) (chunks.flatten.length + 1) 0 chunks 0
+  obsOfEvents r.1 (r.2 == .invalid)
+
+/-- two waves: the first `k1` queries arrive in a burst and are held (nothing completes), all of them
+    complete before query `k1` is read, later queries go ping-pong -/
+def waveDone (k1 : Nat) (i : Nat) : Nat := if i < k1 then 0 else if i = k1 then k1 else 1
+
+/-- ping-pong: the client sends the next frame only after it has read the previous response, so the
+    previous handler has finished when the next message is read (`done = 1`) -/
+def tcpObsPP (max : Nat) (chunks : Chunks) : Obs :=
+  let r := handleConn decB max (fun _ => 1) (fun _ => false) (chunks.flatten.length + 1) 0 chunks 0
+  obsOfEvents r.1 (r.2 == .invalid)
+
+/-- ping-pong, from the property text: never more than one query in flight, so (for a limit ≥ 1) every
+    frame that decodes is answered by the upstream, none is REFUSED -/
+def ppExpected (sent : Bytes) : Obs :=
+  let fs := (parse sent).1
+  obsOfEvents ((fs.takeWhile decB).map Event.query) (!fs.all decB)
+
+def ppSpec (sent : Bytes) (o : Obs) : Bool :=
+  let e := ppExpected sent
+  sortW o.w == sortW e.w && o.up == e.up && o.closed == e.closed
+
+/-- the gnet listener in ping-pong: the handler of a frame completes right after the segment that
+    completes the frame (segments do not span frame boundaries) -/
+def ppOps : List Bytes → Nat → List Nat → List Op
+  | [], _, _ => []
+  | s :: segs, pos, bounds =>
+    let pos := pos + s.length
+    if bounds.contains pos then .seg s :: .rel 0 :: ppOps segs pos bounds else .seg s :: ppOps segs pos bounds
+
+def frameBounds (frs : List (Nat × Bool)) : List Nat :=
+  (frs.foldl (fun (acc : List Nat × Nat) p => ((acc.2 + 2 + p.1) :: acc.1, acc.2 + 2 + p.1)) ([], 0)).1
+
 def splitSegs : List Nat → Bytes → Option (List Bytes)
   | [], _ => some []
   | n :: ns, s => if n = 0 || n > s.length then none else (splitSegs ns (s.drop n)).map (s.take n :: ·)
 
 def run (case impl : String) : String × String :=
   let toks := words case
-  match kvGet toks "proto", kvNat toks "max", (kvGet toks "fr").bind parseFrames, (kvGet toks "segs").bind parseNats with
-  | some proto, some max, some frs, some segN =>
+  match kvGet toks "proto", kvNat toks "max", (kvGet toks "fr").bind parseFrames, (kvGet toks "segs").bind parseNats,
+        kvNat toks "hold" with
+  | some proto, some max, some frs, some segN, some hold =>
     if frs.any (fun p => p.1 == 0 || p.1 > 65535 || (p.2 && p.1 < 17)) || frs.length > 65535 then ("bad-case", "na") else
     let stream := streamOf frs
     match splitSegs segN stream with
     | none => ("bad-case", "na")
     | some segs =>
       let sent := segs.flatten
+      let pp := hold == 2
+      let wave := hold == 3
+      let k1 := (kvNat toks "wave").getD 0
+      let gops : List Op :=
+        if pp then ppOps segs 0 (frameBounds frs)
+        else if wave then
+          match segs with
+          | [] => []
+          | b :: rest => .seg b :: (List.replicate k1 (Op.rel 0) ++ rest.flatMap (fun s => [Op.seg s, Op.rel 0]))
+        else segs.map Op.seg
+      let gc : Case := ⟨max, false, gops⟩
       let o : Option Obs :=
-        if proto == "gnet" then
-          let c : Case := ⟨max, false, segs.map Op.seg⟩
-          if caseOk c then some (modelObs c) else none
-        else some (tcpObs max segs)
+        if pp && max == 0 then none
+        else if proto == "gnet" then
+          if caseOk gc then some (modelObs gc) else none
+        else some (if pp then tcpObsPP max segs else if wave then tcpObsS max (waveDone k1) segs else tcpObs max segs)
       match o with
       | none => ("bad-case", "na")
       | some o =>
+        let judge (o : Obs) : Bool :=
+          if proto == "gnet" then Gnet.spec gc o
+          else if pp then ppSpec sent o
+          else if wave then specS max (waveDone k1) sent o
+          else spec max sent o
         let ms := s!"w={strOfW false o.w} up={strOfNats o.up} closed={strOfBool o.closed}"
         let itoks := words impl
         let v := match (kvGet itoks "w").bind parseW, (kvGet itoks "up").bind parseNats,
                        (kvGet itoks "closed").bind boolOfStr with
-          | some w, some up, some cl => if spec max sent ⟨w, up, cl⟩ then "ok" else "viol"
+          | some w, some up, some cl => if judge ⟨w, up, cl⟩ then "ok" else "viol"
           | _, _, _ => "unparsed"
         (ms, v)
-  | _, _, _, _ => ("bad-case", "na")
+  | _, _, _, _, _ => ("bad-case", "na")
 
 end MosVerif.Framing
